@@ -8,13 +8,13 @@
 package c15
 
 import (
-	"sync/atomic"
 	"encoding/json"
 	"fmt"
 	"os"
 	"sort"
 	"strconv"
 	"strings"
+	"sync/atomic"
 	"time"
 
 	"verif/core"
